@@ -24,3 +24,36 @@ func init() {
 		runResponseStream(c, c.N(400, 8000), "C01")
 	}
 }
+
+const respRule = "XML-level cases through ValidateEncodedResponse/RetrieveAssertionInfo: genuine mini-IdP Responses (1..5 assertions; signature on Response, assertions, both, none; keys trusted1/trusted2/attacker; 6 canonicalisers x 4 signature algorithms; 5 prefix styles; pretty printing; XML declaration; DEFLATE; genuine encryption of signed assertions) followed by 0..2 attacker edits out of 20 (tampering, signature stripping, XSW wrapping/relocation/duplication/ID collision, signature-in-Object, re-signing, KeyInfo swapping, retagging, attacker-side encryption of forged assertions); non-trivial = edited or non-default configuration; distinct by label set; emphasis: "
+
+func init() {
+	runners["C02"] = func(c *Ctx) {
+		c.Rep.Rule = respRule + "C02 (store compositions of 0..2 certificates in both orders, KeyInfo absent / foreign key with trusted certificate / other certificate, SP clock swept to NotBefore-1s, NotBefore, NotBefore+1s, NotAfter-1s, NotAfter, NotAfter+1s), plus logout messages"
+		runResponseStream(c, c.N(320, 6000), "C02")
+		runLogoutStream(c, c.N(200, 4000))
+	}
+	runners["C04"] = func(c *Ctx) {
+		c.Rep.Rule = respRule + "C04 (flag projection on all four inbound kinds, skip on/off)"
+		runResponseStream(c, c.N(300, 6000), "C04")
+		runLogoutStream(c, c.N(250, 4000))
+	}
+	runners["C07"] = func(c *Ctx) {
+		c.Rep.Rule = respRule + "C07 (attacker-encrypted forged plaintexts as direct child / nested, genuine encrypted signed assertions)"
+		runResponseStream(c, c.N(400, 6000), "C07")
+	}
+	runners["C08"] = func(c *Ctx) {
+		c.Rep.Rule = respRule + "C08 (mostly unedited genuine messages over the value repertoire; comment injection after signing; accessors)"
+		runResponseStream(c, c.N(400, 8000), "C08")
+		runValuesAccessors(c, c.N(600, 20000))
+	}
+	runners["C10"] = func(c *Ctx) {
+		c.Rep.Rule = "logout messages at struct level (every combination of destination/version/issuer/status faults) and at XML level through ValidateEncodedLogoutRequestPOST / ValidateEncodedLogoutResponsePOST: genuine signed/unsigned messages, field faults signed by the IdP, keys trusted/untrusted/foreign-key, attacker edits (attribute tampering, signature stripping, wrapping into a forged message, signature relocation, retagging, ID edit, issuer rewrite), raw/DEFLATE, skip on/off, issuer configured or not; non-trivial = signed, faulty or edited; distinct by label set"
+		runLogoutStruct(c, c.N(1500, 30000))
+		runLogoutStream(c, c.N(500, 8000))
+	}
+	runners["C20"] = func(c *Ctx) {
+		c.Rep.Rule = "pre-decode (DecodeUnverifiedBaseResponse / DecodeUnverifiedLogoutResponse) vs full validation on genuine messages in the C08 layouts plus attacker-shaped roots (duplicated, prefixed, xmlns-named attributes, leading whitespace / comments), raw/DEFLATE; non-trivial = shaped root; distinct by label set"
+		runPredecodeStream(c, c.N(500, 8000))
+	}
+}
